@@ -1,19 +1,34 @@
 /-
-F316 (C16): `RichText.Draw` with `Softwrap = false` (and `Text.Draw` without soft wrap: the same
-loop) writes an ellipsis whenever `col + width >= Max.Width && i < len(chars)`.  `i < len(chars)` is
-always true inside `for i, char := range chars` (the comment says "and we aren't the last char":
-`len(chars)-1` was meant), so a line that fits *exactly* loses its last grapheme to "…": "a" at
-Max.Width 1 is drawn as "…", "aa" at Max.Width 2 as "a…".  "The text widgets draw exactly the
-emitted lines" is false of the hard-wrap widget for lines exactly as wide as the widget.
+F316 (C16, fixed in /repo 65842f0): `RichText.Draw` with `Softwrap = false` (and `Text.Draw` without
+soft wrap: the same loop) wrote an ellipsis whenever `col + width >= Max.Width && i < len(chars)`.
+`i < len(chars)` is always true inside `for i, char := range chars` (the comment said "and we aren't
+the last char": `len(chars)-1` was meant), so a line that fits *exactly* lost its last grapheme to
+"…": "a" at Max.Width 1 was drawn as "…", "aa" at Max.Width 2 as "a…".
+
+The model reads the conjuncts of that condition from the source (`Gen.SurfaceFacts.richEllipsisCond`);
+`preFix` is the mode with the conjuncts of the old source.  On the witnesses the old condition draws
+the ellipsis, the current source (`truncate && col+uint16(char.Width) >= ctx.Max.Width`, `truncate` =
+the line is wider than `Max.Width`) draws the line as it is; the `len(chars)-1` reading would still
+cut "a" + zero-width grapheme at width 1.
 -/
 import VaxisModel.Model.WrapDraw
 import VaxisModel.Spec.WrapDraw
 
 namespace VaxisModel.Witness.F316
 open VaxisModel.Model VaxisModel.Model.WrapDraw
-open VaxisModel.Spec.WrapDraw (over overHard width)
+open VaxisModel.Spec.WrapDraw (over hardLine width)
 
 def a : Wrap.Cell := { g := 0, w := 1, style := 1, sp := false, term := false, nl := false }
+/-- a zero-width grapheme (U+200B, a lone combining mark …) -/
+def z : Wrap.Cell := { g := 1, w := 0, style := 1, sp := false, term := false, nl := false }
+
+/-- the hard-wrap mode of RichText with the ellipsis condition of the source before the fix -/
+def preFix : Layout.TextMode := { Layout.richMode true with ell := [.reach, .idxLtLen] }
+/-- … and with `i < len(chars)-1`, the reading the old comment suggests -/
+def lenMinus1 : Layout.TextMode := { Layout.richMode true with ell := [.reach, .idxLtLenM1] }
+
+def drawWithMode (m : Layout.TextMode) (maxW maxH : UInt16) (lines : List (List Wrap.Cell)) : Drawn :=
+  ofExcept (Layout.drawText Surface.srcArith m (ctxOf maxW maxH) (lines.map (·.map toWin)))
 
 /-- what the surface holds after `Draw` (a Bool observer: `Drawn` has no decidable equality) -/
 def shows (d : Drawn) (w h : UInt16) (buf : List Window.Cell) : Bool :=
@@ -21,21 +36,29 @@ def shows (d : Drawn) (w h : UInt16) (buf : List Window.Cell) : Bool :=
   | .ok s => decide (s.w = w ∧ s.h = h ∧ s.buf = buf)
   | _ => false
 
-/-- "a" at Max 1×1: the surface is 1×1 and shows "…" -/
-theorem a_drawn_as_ellipsis :
-    shows (richHardDraw 1 1 [a]) 1 1 [{ g := Window.gEllipsis, w := 1, st := 1 }] = true := by decide
+/-- before the fix: "a" at Max 1×1 is a 1×1 surface showing "…" -/
+theorem a_was_drawn_as_ellipsis :
+    shows (drawWithMode preFix 1 1 [[a]]) 1 1 [{ g := Window.gEllipsis, w := 1, st := 1 }] = true := by decide
 
-/-- "aa" at Max 2×1: "a…" -/
-theorem aa_drawn_as_a_ellipsis :
-    shows (richHardDraw 2 1 [a, a]) 2 1 [toWin a, { g := Window.gEllipsis, w := 1, st := 1 }] = true := by decide
+/-- before the fix: "aa" at Max 2×1 is "a…" -/
+theorem aa_was_drawn_as_a_ellipsis :
+    shows (drawWithMode preFix 2 1 [[a, a]]) 2 1 [toWin a, { g := Window.gEllipsis, w := 1, st := 1 }] = true := by decide
 
-/-- The row function of the code differs from "the line as it is" for a line that fits exactly. -/
-theorem exact_fit_is_truncated :
-    ¬ (∀ (maxW : Nat) (est : Option Nat) (line : List Window.Cell) (f : Nat → Option Window.Cell) (x : Nat),
-        width line ≤ maxW → overHard maxW est line 0 f x = over line 0 f x) := by
-  intro h
-  have := h 1 none [toWin a] (fun _ => none) 0 (by decide)
-  revert this
-  decide
+/-- the current source draws both as they are -/
+theorem a_drawn_as_a :
+    shows (richHardDraw 1 1 [a]) 1 1 [toWin a] = true ∧
+    shows (richHardDraw 2 1 [a, a]) 2 1 [toWin a, toWin a] = true := by decide
+
+/-- `i < len(chars)-1` would not have been enough: "a" followed by a zero-width grapheme fits
+Max.Width 1 and would still be drawn as "…"; the current source draws the "a" (the zero-width
+grapheme has no column of its own on a surface one column wide). -/
+theorem len_minus_one_not_enough :
+    shows (drawWithMode lenMinus1 1 1 [[a, z]]) 1 1 [{ g := Window.gEllipsis, w := 1, st := 1 }] = true ∧
+    shows (richHardDraw 1 1 [a, z]) 1 1 [toWin a] = true := by decide
+
+/-- a line that does not fit: "aaa" at Max.Width 2 is "a…" (longest prefix that leaves a column, then the ellipsis) -/
+theorem aaa_truncated :
+    shows (richHardDraw 2 1 [a, a, a]) 2 1 [toWin a, { g := Window.gEllipsis, w := 1, st := 1 }] = true ∧
+    hardLine 2 none [toWin a, toWin a, toWin a] = [toWin a, { g := Window.gEllipsis, w := 1, st := 1 }] := by decide
 
 end VaxisModel.Witness.F316
